@@ -63,6 +63,23 @@ pub enum C {
 pub const INT_TYS: [(&str, &str, &str); 4] =
     [("i64", "Int64", "int64"), ("i8", "Int8", "int8"), ("u8", "UInt8", "uint8"), ("i32", "Int32", "int32")];
 
+fn mentions_data(t: &VTy, d: usize) -> bool {
+    match t {
+        | VTy::Data(e) => *e == d,
+        | VTy::Prod(a, b) => mentions_data(a, d) || mentions_data(b, d),
+        | VTy::Thk(b) => mentions_data_c(b, d),
+        | _ => false,
+    }
+}
+
+fn mentions_data_c(t: &CTy, d: usize) -> bool {
+    match t {
+        | CTy::Ret(a) => mentions_data(a, d),
+        | CTy::Arr(a, b) => mentions_data(a, d) || mentions_data_c(b, d),
+        | _ => false,
+    }
+}
+
 fn int_names(t: &str) -> (&'static str, &'static str) {
     for (s, ty, pkg) in INT_TYS {
         if s == t {
@@ -88,7 +105,9 @@ impl VTy {
             | VTy::Int(t) => int_names(t).0.into(),
             | VTy::Str => "String".into(),
             | VTy::Prod(a, b) => format!("({} * {})", a.src(), b.src()),
-            | VTy::Data(d) => format!("D{d}"),
+            | VTy::Data(d) => {
+                if ALIASED.with(|a| a.borrow().contains(d)) { format!("E{d}") } else { format!("D{d}") }
+            }
             | VTy::Thk(b) => format!("Thk ({})", b.src()),
         }
     }
@@ -162,7 +181,7 @@ impl V {
             | V::Ctor(d, k, a) => {
                 let inner = a.src();
                 let arg = if inner.starts_with('(') && matches!(**a, V::Pair(..) | V::Unit) { inner } else { format!("({inner})") };
-                format!("(+{k}{arg} : D{d})")
+                format!("(+{k}{arg} : {})", VTy::Data(*d).src())
             }
             | V::Thunk(m, b) => format!("({{ {} }} : Thk ({}))", m.src(), b.src()),
         }
@@ -189,6 +208,11 @@ impl V {
             }
         }
     }
+}
+
+thread_local! {
+    /// data types referred to through a sealed alias `def E<d> : VType = D<d>` (a seal over a seal)
+    pub static ALIASED: std::cell::RefCell<std::collections::HashSet<usize>> = std::cell::RefCell::new(Default::default());
 }
 
 thread_local! {
@@ -458,6 +482,31 @@ pub struct Program {
 impl Program {
     pub fn source(&self) -> String {
         format!("{}begin\n{}{}\nend\n", crate::pipeline::prelude(), self.sig.src(), self.body.src())
+    }
+    /// the same program with every non-recursive data type used through a sealed alias of its
+    /// sealed definition (`def E0 : VType = D0`): constructors and matches must see through both seals
+    pub fn source_aliased(&self) -> Option<String> {
+        let aliased: std::collections::HashSet<usize> = self
+            .sig
+            .datas
+            .iter()
+            .enumerate()
+            .filter(|(d, ctors)| !ctors.iter().any(|(_, t)| mentions_data(t, *d)))
+            .map(|(d, _)| d)
+            .collect();
+        if aliased.is_empty() {
+            return None;
+        }
+        // declarations are printed with plain names for the declared type itself; payloads that
+        // mention an aliased type use the alias, like every other occurrence
+        ALIASED.with(|a| *a.borrow_mut() = aliased.clone());
+        let mut sig = self.sig.src();
+        for d in &aliased {
+            sig.push_str(&format!("  def E{d} : VType = D{d} that\n"));
+        }
+        let text = format!("{}begin\n{}{}\nend\n", crate::pipeline::prelude(), sig, self.body.src());
+        ALIASED.with(|a| a.borrow_mut().clear());
+        Some(text)
     }
     /// the same program with function chains written as multi-parameter abstractions and
     /// copattern spines (`| .d (a : A) (b : B) => m`)
